@@ -103,6 +103,32 @@ UpdateNode(t, i, v) ==
     IF i \notin Occ(t) THEN Err(t, "InvalidIndex")
     ELSE Ok(SetNode(t, i, [t.nodes[i] EXCEPT !.v = v]), i)
 
+\* ---------------------------------------------------------------- read-only accessors (what the query API must answer in state t)
+\* an edge answer: [res, src, label (0-based), dst, sv, tv]; a scalar answer: [res, v]
+QNoEdge(res) == [res |-> res, src |-> NONE, label |-> NONE, dst |-> NONE, sv |-> NONE, tv |-> NONE]
+QEdge(t, s, l, d) == [res |-> "ok", src |-> s, label |-> l, dst |-> d, sv |-> t.nodes[s].v, tv |-> t.nodes[d].v]
+QScalar(res, v) == [res |-> res, v |-> v]
+\* parent(i): the edge from the parent; the label is found by a linear search (first matching slot); a parent that does
+\* not list the node is the documented "data structure corrupted" panic
+QParent(t, i) ==
+    IF i \notin Occ(t) \/ t.nodes[i].p = NONE \/ t.nodes[i].p \notin Occ(t) THEN QNoEdge("err")
+    ELSE LET p == t.nodes[i].p
+             ls == {s \in 1..Len(t.nodes[p].ch) : t.nodes[p].ch[s] = i}
+         IN IF ls = {} THEN QNoEdge("panic") ELSE QEdge(t, p, (CHOOSE s \in ls : \A u \in ls : s <= u) - 1, i)
+QChild(t, i, l) ==
+    IF i \notin Occ(t) \/ t.nodes[i].ch[l + 1] = NONE \/ t.nodes[i].ch[l + 1] \notin Occ(t) THEN QNoEdge("err")
+    ELSE QEdge(t, i, l, t.nodes[i].ch[l + 1])
+\* children(i): existing children by ascending label; panics on a vacant index
+QChildren(t, i) ==
+    IF i \notin Occ(t) \/ \E s \in 1..Len(t.nodes[i].ch) : t.nodes[i].ch[s] # NONE /\ t.nodes[i].ch[s] \notin Occ(t) THEN [res |-> "panic", list |-> <<>>]
+    ELSE LET RECURSIVE G(_) G(s) == IF s > Len(t.nodes[i].ch) THEN <<>> ELSE (IF t.nodes[i].ch[s] = NONE THEN <<>> ELSE <<QEdge(t, i, s - 1, t.nodes[i].ch[s])>>) \o G(s + 1)
+         IN [res |-> "ok", list |-> G(1)]
+QIsLeaf(t, i) == IF i \in Occ(t) THEN QScalar("ok", IF t.nodes[i].leaf THEN 1 ELSE 0) ELSE QScalar("err", NONE)
+QValue(t, i) == IF i \in Occ(t) THEN QScalar("ok", t.nodes[i].v) ELSE QScalar("err", NONE)
+QNumChildren(t, i) == IF i \in Occ(t) THEN QScalar("ok", NumChildren(t.nodes[i])) ELSE QScalar("panic", NONE)
+QIsRoot(t, i) == t.root # NONE /\ t.root = i
+QContains(t, i) == i \in Occ(t)
+
 \* ---------------------------------------------------------------- property C12: structural consistency
 LinksMirror(t) ==
     \A i \in Occ(t) :
